@@ -203,6 +203,12 @@ def run_case(case):
                   "library %d, reference %s" % (xm.get_n_bins(), dims))], info
     # names / order: row-major product of the coverpoints' own bin names
     cpn = [cov.names(cpm[n]) for n in x["cps"]]
+    for n_, names_ in zip(x["cps"], cpn):
+        # a name shared by two bins of one coverpoint identifies neither of them - nor the cross bins built from them
+        dup = sorted(set(v_ for v_ in names_ if names_.count(v_) > 1))
+        if dup:
+            return [V("bin_name", "two bins of one coverpoint (and the cross bins over them) share a name", case,
+                      "coverpoint %s: bin names %s" % (n_, names_))], info
     for i in range(total):
         rem, idx = i, []
         for k in reversed(dims):
